@@ -918,6 +918,8 @@ class Executor:
             q.env[tgt.id] = v
         elif isinstance(tgt, ast.Attribute) and isinstance(tgt.value, ast.Name) and q.env.get(tgt.value.id, NONE).sort == 'rec':
             rec = q.env[tgt.value.id]; q.env[tgt.value.id] = Val('rec', x=dict(rec.x, **{tgt.attr: v}))
+            if isinstance(rec.x.get('_param'), str):
+                self.oblige(f'frame: the argument `{rec.x["_param"]}` is not modified (attribute store `{ast.unparse(tgt)}` at line {tgt.lineno})', q.pc, z3.BoolVal(False), q.exact, 'frame')
         elif isinstance(tgt, ast.Subscript):
             h = self.c.store_handler
             if h is None:
@@ -1143,6 +1145,8 @@ class Executor:
             if extra: env[extra] = named(self.c.params.get(extra, 'opaque'), extra)
         missing = set(self.c.params) - set(env)
         if missing: raise Unsupported(f'{self.qualname}: contract names parameters {sorted(missing)} that the real signature lacks')
+        for name, v in env.items():          # identity of record arguments (frame: an attribute store through any alias of the argument is a write to the caller's object)
+            if name != 'self' and isinstance(v, Val) and v.sort == 'rec' and isinstance(v.x, dict) and '_param' not in v.x: env[name] = Val('rec', v.t, x=dict(v.x, _param=name))
         self.params = dict(env)
         p0 = Path(env)
         for name, r in self.c.requires:
